@@ -774,6 +774,29 @@ def rule_R15(toks, fired, bases):
     return toks
 
 
+def rule_R16(toks, fired, pairs):
+    """A == B / A != B on Vec operands  ->  vec_eq(&(A), &(B)) / !vec_eq(..)   (Vec's PartialEq has no Verus spec;
+    the prelude's vec_eq is ASSUMED to be element-wise equality, which is what std implements)"""
+    for pr in pairs:
+        A, B = pr.split("~")
+        pa, pb = sig(lex(A)), sig(lex(B))
+        ci = code_idx(toks)
+        texts = [toks[i].text for i in ci]
+        k = 0
+        while k + len(pa) + 1 + len(pb) <= len(texts):
+            if texts[k:k + len(pa)] == pa and texts[k + len(pa)] in ("==", "!=") and texts[k + len(pa) + 1:k + len(pa) + 1 + len(pb)] == pb:
+                op = texts[k + len(pa)]
+                a0, a1 = ci[k], ci[k + len(pa) - 1]
+                b0, b1 = ci[k + len(pa) + 1], ci[k + len(pa) + len(pb)]
+                new = (synth(("!" if op == "!=" else "") + "vec_eq(&(") + toks[a0:a1 + 1] + synth("), &(") + toks[b0:b1 + 1] + synth("))"))
+                toks = toks[:a0] + new + toks[b1 + 1:]
+                fired["R16"] = fired.get("R16", 0) + 1
+                ci = code_idx(toks)
+                texts = [toks[i].text for i in ci]
+            k += 1
+    return toks
+
+
 def _contains_continue(toks, lo, hi):
     """is there a `continue` in lo..hi that belongs to this loop (not to a nested loop / closure)?"""
     i = lo
@@ -908,6 +931,8 @@ def apply_rules(toks, rules, fired):
             toks = rule_drop_stmt(toks, fired, r[5:])
         elif r.startswith("zipidx"):
             pass
+        elif r.startswith("R16:"):
+            toks = rule_R16(toks, fired, [b for b in r[4:].split("|") if b])
         elif r.startswith("R15:"):
             toks = rule_R15(toks, fired, [b for b in r[4:].split("|") if b])
         elif r.startswith("tparam:"):
@@ -961,11 +986,17 @@ def stmt_bounds(toks, i):
     # walk forward to ';' at depth 0
     b = i
     depth = 0
+    block_stmt = toks[a].kind == "ident" and toks[a].text in ("if", "for", "while", "loop", "match", "unsafe")
     while b < len(toks):
         t = toks[b]
         if t.kind == "punct":
             if t.text in OPEN:
+                was_brace = t.text == "{"
                 b = match_close(toks, b)
+                if block_stmt and was_brace:
+                    nx = next_code(toks, b + 1)
+                    if not (nx < len(toks) and toks[nx].kind == "ident" and toks[nx].text == "else"):
+                        break      # a block statement ends with its closing brace
             elif t.text == ";":
                 break
             elif t.text in CLOSE:
